@@ -3,6 +3,10 @@ open Egutil
 open Rawdata
 open Framebuffer
 
+(* the harness target has a 64-bit usize: run the usize64 instance of the model *)
+let fb_pixel = Framebuffer.fb_pixel Rawdata.usize64
+let image_draw_colors = Framebuffer.image_draw_colors Rawdata.usize64
+
 let ty = function
   | "1" -> U1 | "2" -> U2 | "4" -> U4 | "8" -> U8 | "16" -> U16 | "24" -> U24 | "32" -> U32
   | _ -> failwith "bpp"
